@@ -113,7 +113,7 @@ theorem traversal_equivariant {φ : Nat → Nat} {s s' : View} (R : Renum φ s s
     s'.traversal idx (seeds.map φ) = (s.traversal idx seeds).map (mapItem φ) :=
   traversal_equiv R idx seeds
 
-/-- ○→✔ **traversalCode_equivariant**: for an isomorphism `f : a → b` (in particular for every
+/-- ✔ **traversalCode_equivariant**: for an isomorphism `f : a → b` (in particular for every
     renumbering of `a`), `TraversalCode::new(b, f seed)` and `TraversalCode::new(a, seed)`
     produce the same code, and their element maps correspond: `map_b (f d) = map_a d`.
     (They also panic alike.) -/
@@ -391,5 +391,57 @@ theorem spec_separation_is_canonical_complete {a b : SpecC03.Sym}
   exact (canonical_complete hva hvb hsa hdma hsb hdmb hca hcb).symm
 
 example : SpecC03.inDomain specEx1 = true ∧ SpecC03.inDomain specEx1 = true := by decide
+
+/-! ## 9. the hypotheses and conclusions on a three-chamber symbol with a non-trivial renumbering
+
+`t3`  = `<1.1:3:1 2 3,3 2,2 3:…>` with v01 = 3 on the orbit {1,3}, 4 on {2}, v12 = 1;
+`t3r` = `t3` renumbered by 1 → 2 → 3 → 1;
+`t3x` = the same D-set with v01 exchanged (4 on {1,3}, 3 on {2}) — not isomorphic to `t3`.
+All facts are evaluated by the kernel. -/
+
+def t3 : SpecC03.Sym := { size := 3, dim := 2, op := #[1, 3, 2, 2, 2, 1, 3, 1, 3], v := #[3, 4, 3, 1, 1, 1] }
+def t3r : SpecC03.Sym := { size := 3, dim := 2, op := #[1, 2, 1, 2, 1, 3, 3, 3, 2], v := #[3, 3, 4, 1, 1, 1] }
+def t3x : SpecC03.Sym := { size := 3, dim := 2, op := #[1, 3, 2, 2, 2, 1, 3, 1, 3], v := #[4, 3, 4, 1, 1, 1] }
+
+theorem t3_inDomain : SpecC03.inDomain t3 = true ∧ SpecC03.inDomain t3r = true ∧
+    SpecC03.inDomain t3x = true := by decide +kernel
+
+theorem t3_renumbering : SpecC03.isIso #[0, 2, 3, 1] t3 t3r = true ∧
+    SpecC03.renumber t3 #[0, 2, 3, 1] = t3r := by decide +kernel
+
+/-- the hypotheses of `canonical_isomorphic`, `canonical_idempotent`, `canonical_renumber` and
+    `canonical_complete` are satisfied by three-chamber symbols with a non-identity isomorphism -/
+example : ∃ (f : Nat → Nat) (a b : DSymData), ValidSym a ∧ ValidSym b ∧ 1 ≤ a.size ∧ 1 ≤ a.dim ∧
+    1 ≤ b.size ∧ 1 ≤ b.dim ∧ Conn a ∧ Conn b ∧ IsIso f a b ∧ f 1 = 2 ∧ a.size = 3 := by
+  obtain ⟨a, _, hva, hsa, hda, hca, haa⟩ := decode_valid t3_inDomain.1
+  obtain ⟨b, _, hvb, hsb, hdb, hcb, hbb⟩ := decode_valid t3_inDomain.2.1
+  exact ⟨_, a, b, hva, hvb, hsa, hda, hsb, hdb, hca, hcb,
+    ((spec_isIso_meaning haa hbb #[0, 2, 3, 1]).2).1 t3_renumbering.1, rfl, haa.size⟩
+
+/-- … and on them the conclusions, computed: the renumbered symbol has the same canonical form,
+    the canonical form is a fixed point … -/
+example :
+    (ofTables 3 2 t3r.opAt t3r.vAt).bind canonical = (ofTables 3 2 t3.opAt t3.vAt).bind canonical ∧
+    ((ofTables 3 2 t3.opAt t3.vAt).bind canonical).bind canonical =
+      (ofTables 3 2 t3.opAt t3.vAt).bind canonical ∧
+    ((ofTables 3 2 t3.opAt t3.vAt).bind canonical).isOk = true := by decide +kernel
+
+/-- … while the non-isomorphic symbol on the same D-set has a different canonical form, and the
+    Spec's search says "not isomorphic" — by `spec_isomorphic_decides` there is no isomorphism -/
+example :
+    (ofTables 3 2 t3x.opAt t3x.vAt).bind canonical ≠ (ofTables 3 2 t3.opAt t3.vAt).bind canonical ∧
+    SpecC03.isomorphic t3 t3x = false ∧ SpecC03.isomorphic t3 t3r = true := by decide +kernel
+
+example : ∃ a x : DSymData, ValidSym a ∧ ValidSym x ∧ Conn a ∧ Conn x ∧ a.size = 3 ∧
+    (¬ ∃ g, IsIso g a x) ∧ canonical a ≠ canonical x := by
+  obtain ⟨a, _, hva, hsa, hda, hca, haa⟩ := decode_valid t3_inDomain.1
+  obtain ⟨x, _, hvx, hsx, hdx, hcx, hxx⟩ := decode_valid t3_inDomain.2.2
+  have hni : ¬ ∃ g, IsIso g a x := by
+    intro h
+    have := (spec_isomorphic_decides t3_inDomain.1 haa hxx).2 h
+    have hf : SpecC03.isomorphic t3 t3x = false := by decide +kernel
+    rw [hf] at this; cases this
+  exact ⟨a, x, hva, hvx, hca, hcx, haa.size, hni,
+    fun he => hni ((canonical_complete hva hvx hsa hda hsx hdx hca hcx).1 he)⟩
 
 end DSymVerif.C03
